@@ -424,13 +424,34 @@ func (w *walker) havocLoop(s *state, fr *frame, h *ssa.BasicBlock) {
 					}
 					continue
 				}
+				// only the arguments the callee may write
+				all := c.Args
+				var writes []int
 				if c.IsInvoke() {
-					hav(c.Value)
+					all = append([]ssa.Value{c.Value}, c.Args...)
+					writes = w.invokeWrites(fr.fn, x, c, len(all))
+				} else if callee := c.StaticCallee(); callee != nil {
+					if sum := w.cfg.Mod.Sum[callee]; sum != nil {
+						for i := range sum.Writes {
+							writes = append(writes, i)
+						}
+					} else {
+						writes = emod.ExternalWrites(callee.String(), all, callee.Signature.Recv() != nil)
+					}
+					if ov, ok := w.cfg.WritesOverride[shortName(callee)]; ok {
+						writes = ov
+					}
+				} else {
+					for i := range all {
+						writes = append(writes, i)
+					}
 				}
-				for _, a := range c.Args {
-					switch a.Type().Underlying().(type) {
-					case *types.Pointer, *types.Slice, *types.Map, *types.Interface:
-						hav(a)
+				for _, i := range writes {
+					if i < len(all) {
+						switch all[i].Type().Underlying().(type) {
+						case *types.Pointer, *types.Slice, *types.Map, *types.Interface:
+							hav(all[i])
+						}
 					}
 				}
 			}
@@ -1035,7 +1056,8 @@ func (w *walker) run(s *state) {
 			l := &Loc{Root: s.localRoot("M", x.Type()), Len: n, NonNil: true}
 			fr.env[x] = refTerm(l)
 			if n != 0 {
-				s.hset(l, mk("zero"))
+				// a zero-filled buffer of a given length (Z_pad and the like): the length is part of the value
+				s.hset(l, mk("zeros", w.val(s, fr, x.Len)))
 			} else {
 				s.hset(l, mk("cat"))
 			}
@@ -1395,7 +1417,7 @@ func (w *walker) builtin(s *state, fr *frame, name string, args []*Term, x *ssa.
 		switch {
 		case base.Op == "cat":
 			parts = append(parts, base.Args...)
-		case base.Nil || base.Op == "zero":
+		case base.Nil || base.Op == "zero" || (base.Op == "zeros" && len(base.Args) == 1 && base.Args[0].String() == "0"):
 		default:
 			parts = append(parts, base)
 		}
@@ -1486,7 +1508,7 @@ func (w *walker) uninterpreted(s *state, fr *frame, instr ssa.CallInstruction, a
 				written = true
 			}
 		}
-		if written && i == 0 && (c.Op == "zero" || !readsRecv || PureDest[name]) {
+		if written && i == 0 && (c.Op == "zero" || c.Op == "zeros" || !readsRecv || PureDest[name]) {
 			continue // pure destination: fresh object, or a callee that never reads its receiver
 		}
 		if written && i == 0 && a.Op == "ref" && len(c.Args) == 0 && c.String() == defaultContent(a.Loc).String() {
@@ -1528,11 +1550,16 @@ func (w *walker) uninterpreted(s *state, fr *frame, instr ssa.CallInstruction, a
 		}
 	}
 	if strings.HasSuffix(name, ".Reset") && len(cargs) == 1 {
-		if cargs[0].Op == "H" {
-			ct = mk("H", cargs[0].Args[0])
-		} else {
-			ct = cargs[0]
+		base := cargs[0]
+		if base.Op == "H" {
+			base = base.Args[0]
 		}
+		// a constructor result is already in its initial state; anything else
+		// (a clone of a caller-supplied object, say) is fresh only after Reset
+		if base.Op != "fresh" && !isFreshCtor(base.Op) {
+			base = mk("fresh", base)
+		}
+		ct = base
 	}
 	// distinguish repeated constructor calls (objects with identity, such as
 	// hash states); value setters like One()/Zero() denote the same value each time
@@ -1592,6 +1619,17 @@ func (w *walker) uninterpreted(s *state, fr *frame, instr ssa.CallInstruction, a
 		rs = append(rs, mkRes(i))
 	}
 	return mk("tuple", rs...)
+}
+
+// isFreshCtor: the operator is a constructor call (New, New512, NewShake256, Hash.New …).
+func isFreshCtor(op string) bool {
+	if i := strings.LastIndexByte(op, '.'); i >= 0 {
+		op = op[i+1:]
+	}
+	if i := strings.IndexByte(op, '#'); i >= 0 {
+		op = op[:i]
+	}
+	return strings.HasPrefix(op, "New")
 }
 
 // digestSize: the digest length of a hash state term, if its constructor is known.
